@@ -219,11 +219,12 @@
 ;; query encoding and decoding
 
 (define (uri-safe-char? ch)
-  (or (char-alphabetic? ch)
-      (char-numeric? ch)
-      (case ch
-        ((#\- #\_ #\. #\! #\~ #\* #\' #\( #\)) #t)
-        (else #f))))
+  (and (< (char->integer ch) 128)       ; URIs are ASCII
+       (or (char-alphabetic? ch)
+           (char-numeric? ch)
+           (case ch
+             ((#\- #\_ #\. #\! #\~ #\* #\' #\( #\)) #t)
+             (else #f)))))
 
 (define (collect str from to res)
   (if (string-cursor>=? from to)
@@ -233,20 +234,35 @@
 ;;> \procedure{(uri-encode str [plus?])}
 
 ;;> Return the URI encoded version of the string \var{str},
-;;> using hex escapes as needed and replacing spaces with "+"
-;;> iff the optional argument \var{plus?} is true.
+;;> using hex escapes of the UTF-8 octets as needed and replacing
+;;> spaces with "+" iff the optional argument \var{plus?} is true.
 
 (define (uri-encode str . o)
   (define (encode-1-space ch)
     (if (eqv? ch #\space)
         "+"
         (encode-1-normal ch)))
+  (define (encode-octet i)
+    (string-append (if (< i 16) "%0" "%") (number->string i 16)))
+  ;; the last n (continuation) octets of the UTF-8 form of i
+  (define (encode-tail i n)
+    (if (zero? n)
+        ""
+        (string-append (encode-tail (quotient i 64) (- n 1))
+                       (encode-octet (+ #x80 (remainder i 64))))))
   (define (encode-1-normal ch)
-    (let* ((i (char->integer ch))
-           (hex (number->string i 16)))
-      (if (< i 16)
-          (string-append "%0" hex)
-          (string-append "%" hex))))
+    (let ((i (char->integer ch)))
+      (cond
+       ((< i #x80) (encode-octet i))
+       ((< i #x800)
+        (string-append (encode-octet (+ #xC0 (quotient i #x40)))
+                       (encode-tail i 1)))
+       ((< i #x10000)
+        (string-append (encode-octet (+ #xE0 (quotient i #x1000)))
+                       (encode-tail i 2)))
+       (else
+        (string-append (encode-octet (+ #xF0 (quotient i #x40000)))
+                       (encode-tail i 3))))))
   (let ((start (string-cursor-start str))
         (end (string-cursor-end str))
         (encode-1 (if (and (pair? o) (car o))
@@ -268,12 +284,54 @@
 
 ;;> Decodes any URI hex escapes in the given string, and
 ;;> translates any pluses ("+") to space iff the optional
-;;> argument \var{plus?} is true.
+;;> argument \var{plus?} is true.  The escapes are taken as the
+;;> octets of UTF-8 text, with U+FFFD in place of octets which are
+;;> not.  A "%" not followed by two hex digits is left as is.
+
+(define (hex-digit-value ch)
+  (let ((i (char->integer ch)))
+    (cond ((<= 48 i 57) (- i 48))
+          ((<= 65 i 70) (- i 55))
+          ((<= 97 i 102) (- i 87))
+          (else #f))))
+
+;; Decode a list of octets as UTF-8.
+(define (utf8-octets->string ls)
+  (let lp ((ls ls) (res '()))
+    (if (null? ls)
+        (list->string (reverse res))
+        (let* ((b (car ls))
+               (len (cond ((< b #x80) 1) ((< b #xC2) 0) ((< b #xE0) 2)
+                          ((< b #xF0) 3) ((< b #xF5) 4) (else 0))))
+          (let lp2 ((i 1)
+                    (tail (cdr ls))
+                    (n (- b (vector-ref '#(0 0 #xC0 #xE0 #xF0) len))))
+            (cond
+             ((and (< i len) (pair? tail) (<= #x80 (car tail) #xBF))
+              (lp2 (+ i 1) (cdr tail) (+ (* n 64) (- (car tail) #x80))))
+             ((and (= i len)
+                   (>= n (vector-ref '#(0 0 #x80 #x800 #x10000) len))
+                   (not (<= #xD800 n #xDFFF))
+                   (<= n #x10FFFF))
+              (lp tail (cons (integer->char n) res)))
+             (else                      ; malformed, resume after b
+              (lp (cdr ls) (cons (integer->char #xFFFD) res)))))))))
 
 (define (uri-decode str . o)
   (let ((space-as-plus? (and (pair? o) (car o)))
         (start (string-cursor-start str))
         (end (string-cursor-end str)))
+    ;; the octet written as %XX at cursor i, or #f
+    (define (escape-at i)
+      (and (string-cursor<? i end)
+           (eqv? #\% (string-cursor-ref str i))
+           (let ((j (string-cursor-next str i)))
+             (and (string-cursor<? j end)
+                  (let ((k (string-cursor-next str j)))
+                    (and (string-cursor<? k end)
+                         (let ((hi (hex-digit-value (string-cursor-ref str j)))
+                               (lo (hex-digit-value (string-cursor-ref str k))))
+                           (and hi lo (+ (* hi 16) lo)))))))))
     (let lp ((from start) (to start) (res '()))
       (if (string-cursor>=? to end)
           (if (string-cursor<=? from start)
@@ -282,17 +340,14 @@
           (let* ((ch (string-cursor-ref str to))
                  (next (string-cursor-next str to)))
             (cond
-             ((eqv? ch #\%)
-              (if (string-cursor>=? next end)
-                  (lp next next (collect str from to res))
-                  (let ((next2 (string-cursor-next str next)))
-                    (if (string-cursor>=? next2 end)
-                        (lp next2 next2 (collect str from to res))
-                        (let* ((next3 (string-cursor-next str next2))
-                               (hex (substring-cursor str next next3))
-                               (i (string->number hex 16)))
-                          (lp next3 next3 (cons (string (integer->char i))
-                                                (collect str from to res))))))))
+             ((escape-at to)
+              ;; a run of escapes is a run of UTF-8 octets
+              (let lp2 ((i to) (octets '()))
+                (let ((octet (escape-at i)))
+                  (if octet
+                      (lp2 (string-cursor-forward str i 3) (cons octet octets))
+                      (lp i i (cons (utf8-octets->string (reverse octets))
+                                    (collect str from to res)))))))
              ((and space-as-plus? (eqv? ch #\+))
               (lp next next (cons " " (collect str from to res))))
              (else
